@@ -112,3 +112,381 @@ Proof.
   cbn [bind]. f_equal. replace (negb (Bool.eqb (f_neg C a) false)) with (f_neg C a) by (destruct (f_neg C a); reflexivity).
   apply f_encode_self; assumption.
 Qed.
+
+(* ------------------------------------------------------------------------------------------------ *)
+(* the restoring division in general: loop invariant.
+   R0 = divisor mantissa (a multiple of 256), W0 = dividend mantissa; after i iterations the divisor has
+   been halved (with truncation) i times, q holds the i quotient bits, w the remaining work mantissa. *)
+
+Definition rr (R0 i : Z) : Z := R0 / 2 ^ i.
+
+Definition dinv (R0 W0 i q w : Z) : Prop :=
+  0 <= q /\ 0 < w <= 2 * rr R0 i + Z.max 0 (i - 8) /\
+  2 ^ i * W0 <= 2 * q * R0 + 2 ^ i * w <= 2 ^ i * W0 + Z.max 0 (i - 9) * 2 ^ i /\
+  (i = 0 -> w = W0 /\ q = 0) /\
+  (1 <= i -> R0 < W0 -> 2 ^ i <= 2 * q) /\
+  (1 <= i -> W0 = R0 -> 2 * q = 2 ^ i - 2 /\ 2 * rr R0 i <= w).
+
+Lemma rr_facts mr i : 0 < mr -> 0 <= i ->
+  let R0 := 256 * mr in
+  rr R0 (i + 1) = rr R0 i / 2 /\
+  (i <= 7 -> rr R0 i = 2 * rr R0 (i + 1)) /\
+  R0 = 2 ^ i * rr R0 i + R0 mod 2 ^ i /\ 0 <= R0 mod 2 ^ i < 2 ^ i /\
+  (i <= 8 -> R0 mod 2 ^ i = 0) /\ 0 <= rr R0 i.
+Proof.
+  intros Hmr Hi R0. unfold rr. assert (Hp : 0 < 2 ^ i) by (apply pow2_pos; lia).
+  assert (E1 : R0 / 2 ^ (i + 1) = R0 / 2 ^ i / 2).
+  { rewrite pow2_S by lia. rewrite Z.mul_comm. rewrite <- Z.div_div by lia. reflexivity. }
+  split; [exact E1|]. split.
+  - intros Hle. rewrite E1.
+    assert (E : R0 = 2 ^ i * (2 * (2 ^ (7 - i) * mr))).
+    { unfold R0. change 256 with (2 ^ 8). replace 8 with (i + (1 + (7 - i))) at 1 by lia.
+      rewrite !pow2_split by lia. change (2 ^ 1) with 2. lia. }
+    rewrite E. rewrite Z.mul_comm, Z.div_mul by lia. lia.
+  - split; [apply Z.div_mod; lia|]. split; [apply Z.mod_pos_bound; lia|]. split.
+    + intros Hle.
+      assert (E : R0 = (2 ^ (8 - i) * mr) * 2 ^ i).
+      { unfold R0. change 256 with (2 ^ 8). replace 8 with ((8 - i) + i) at 1 by lia.
+        rewrite pow2_split by lia. lia. }
+      rewrite E. apply Z.mod_mul. lia.
+    + apply Z.div_pos; unfold R0; lia.
+Qed.
+
+Lemma dinv_step mr W0 i q w : 0 < mr -> 0 <= i ->
+  let R0 := 256 * mr in
+  0 < rr R0 i -> dinv R0 W0 i q w ->
+  dinv R0 W0 (i + 1) (if w >? rr R0 i then 2 * q + 1 else 2 * q) (if w >? rr R0 i then w - rr R0 i else w).
+Proof.
+  intros Hmr Hi R0 Hr (Hq & Hw & HU & H0 & Hgt & Heq).
+  destruct (rr_facts mr i Hmr Hi) as (F1 & F1e & F2 & F2b & F2z & Frn). fold R0 in F1, F1e, F2, F2b, F2z, Frn.
+  destruct (rr_facts mr (i + 1) Hmr ltac:(lia)) as (_ & _ & _ & _ & _ & Frn1). fold R0 in Frn1.
+  set (r := rr R0 i) in *. set (r1 := rr R0 (i + 1)) in *. set (F := R0 mod 2 ^ i) in *.
+  assert (Hp : 0 < 2 ^ i) by (apply pow2_pos; lia).
+  assert (Hp1 : 2 ^ (i + 1) = 2 * 2 ^ i) by (apply pow2_S; lia).
+  set (p := 2 ^ i) in *.
+  assert (Hrho : r = 2 * r1 \/ (r = 2 * r1 + 1 /\ 8 <= i)).
+  { destruct (Z.le_gt_cases i 7) as [Hle|Hgt7]; [left; apply F1e; exact Hle|].
+    assert (r = 2 * r1 \/ r = 2 * r1 + 1) by lia. lia. }
+  assert (HF : F = 0 \/ 9 <= i) by (destruct (Z.le_gt_cases i 8); [left; apply F2z; assumption | right; lia]).
+  set (cu := Z.max 0 (i - 9)) in *. set (cu' := Z.max 0 (i + 1 - 9)).
+  assert (Hcu : (0 <= cu <= cu') /\ (9 <= i -> cu' = cu + 1)) by (unfold cu, cu'; lia).
+  unfold dinv. rewrite Hp1.
+  destruct (Z.gtb_spec w r) as [Hb|Hb].
+  - (* quotient bit 1 *)
+    split; [lia|]. split; [lia|]. split.
+    { replace (2 * (2 * q + 1) * R0 + 2 * p * (w - r)) with (2 * (2 * q * R0 + p * w) + 2 * (R0 - p * r)) by lia.
+      replace (R0 - p * r) with F by lia. fold cu cu'.
+      set (Sm := 2 * q * R0 + p * w) in *.
+      destruct HF as [HF|HF].
+      - assert (cu * p <= cu' * p) by (clear - Hcu Hp; nia). lia.
+      - rewrite (proj2 Hcu HF). lia. }
+    split; [lia|]. split.
+    { intros _ Hlt. destruct (Z.eq_dec i 0) as [E0|E0]; [subst i; unfold p; change (2 ^ 0) with 1; lia|].
+      specialize (Hgt ltac:(lia) Hlt). lia. }
+    { intros _ HWR. destruct (Z.eq_dec i 0) as [E0|E0].
+      - exfalso. destruct (H0 E0) as [Ew _]. subst i. unfold r, rr in Hb. change (2 ^ 0) with 1 in Hb.
+        rewrite Z.div_1_r in Hb. lia.
+      - destruct (Heq ltac:(lia) HWR) as [E1 E2]. split; [lia|]. lia. }
+  - (* quotient bit 0 *)
+    split; [lia|]. split; [lia|]. split.
+    { replace (2 * (2 * q) * R0 + 2 * p * w) with (2 * (2 * q * R0 + p * w)) by lia. fold cu cu'.
+      set (Sm := 2 * q * R0 + p * w) in *.
+      assert (cu * p <= cu' * p) by (clear - Hcu Hp; nia). lia. }
+    split; [lia|]. split.
+    { intros _ Hlt. destruct (Z.eq_dec i 0) as [E0|E0].
+      - exfalso. destruct (H0 E0) as [Ew _]. subst i. unfold r, rr in Hb. change (2 ^ 0) with 1 in Hb.
+        rewrite Z.div_1_r in Hb. lia.
+      - specialize (Hgt ltac:(lia) Hlt). lia. }
+    { intros _ HWR. destruct (Z.eq_dec i 0) as [E0|E0].
+      - destruct (H0 E0) as [Ew Eq]. subst i q. unfold p. change (2 ^ 0) with 1.
+        assert (Er : r = R0) by (unfold r, rr; change (2 ^ 0) with 1; apply Z.div_1_r). lia.
+      - exfalso. destruct (Heq ltac:(lia) HWR) as [E1 E2]. lia. }
+Qed.
+
+Lemma dloop_inv C lden rden lneg rexp rneg mr W0 : 0 < mr ->
+  let R0 := 256 * mr in
+  forall (t f : nat) i q e w, (t < f)%nat -> 0 <= i -> rr R0 i < 2 ^ Z.of_nat t -> dinv R0 W0 i q w ->
+  exists n q' w', i <= n /\ rr R0 n = 0 /\ (n = i \/ 0 < rr R0 (n - 1)) /\
+    mbf_div_den_loop_4 f C lden rden lneg rexp rneg q e w (rr R0 i) = Ok (q', e - (n - i), w', 0) /\
+    dinv R0 W0 n q' w'.
+Proof.
+  intros Hmr R0. induction t as [|t IH]; intros f i q e w Hf Hi Hlt Hinv.
+  - destruct (rr_facts mr i Hmr Hi) as (_ & _ & _ & _ & _ & Frn). fold R0 in Frn.
+    change (2 ^ Z.of_nat 0) with 1 in Hlt. assert (E0 : rr R0 i = 0) by lia.
+    destruct f as [|f]; [lia|]. rewrite dloop_S, E0. change (0 >? 0) with false. cbv iota.
+    exists i, q, w. split; [lia|]. split; [exact E0|]. split; [left; reflexivity|].
+    split; [apply tup4; lia | exact Hinv].
+  - destruct (rr_facts mr i Hmr Hi) as (F1 & _ & _ & _ & _ & Frn). fold R0 in F1, Frn.
+    destruct f as [|f]; [lia|]. rewrite dloop_S.
+    destruct (Z.gtb_spec (rr R0 i) 0) as [Hpos|Hz].
+    + rewrite Z.shiftr_div_pow2 by lia. change (2 ^ 1) with 2. rewrite <- F1.
+      rewrite Z.shiftl_mul_pow2 by lia. change (2 ^ 1) with 2.
+      pose proof (dinv_step mr W0 i q w Hmr Hi Hpos Hinv) as Hstep. fold R0 in Hstep.
+      rewrite Nat2Z.inj_succ, Z.pow_succ_r in Hlt by lia.
+      destruct (IH f (i + 1) (if w >? rr R0 i then 2 * q + 1 else 2 * q) (e - 1)
+                  (if w >? rr R0 i then w - rr R0 i else w) ltac:(lia) ltac:(lia) ltac:(rewrite F1; lia) Hstep)
+        as (n & q' & w' & Hn & Hrn & Hprev & Hloop & Hinv').
+      exists n, q', w'. split; [lia|]. split; [exact Hrn|]. split.
+      { right. destruct Hprev as [E|Hp]; [|exact Hp]. subst n. replace (i + 1 - 1) with i by lia. exact Hpos. }
+      split; [|exact Hinv'].
+      replace (e - (n - i)) with (e - 1 - (n - (i + 1))) by lia. rewrite <- Hloop.
+      destruct (w >? rr R0 i); f_equal; lia.
+    + assert (E0 : rr R0 i = 0) by lia. rewrite E0.
+      exists i, q, w. split; [lia|]. split; [exact E0|]. split; [left; reflexivity|].
+      split; [apply tup4; lia | exact Hinv].
+Qed.
+
+(* ------------------------------------------------------------------------------------------------ *)
+(* _div_den on two non-zero operands: the quotient mantissa q and its distance from the exact quotient *)
+
+Lemma div_den_spec C ea ma (na : bool) eb mb (nb : bool) : fmt_ok C ->
+  2 ^ (mbits C - 1) <= ma < 2 ^ mbits C -> 2 ^ (mbits C - 1) <= mb < 2 ^ mbits C ->
+  let P := 2 ^ (mbits C - 1) in let m := mbits C in
+  exists q, mbf_div_den C (ea, 256 * ma, na) (eb, 256 * mb, nb) = Ok (ea - eb + 129, q, negb (Bool.eqb na nb)) /\
+    128 * P <= q < 512 * P /\
+    P * (256 * ma - m) <= q * mb <= P * (256 * ma + m - 2) /\
+    (mb < ma -> 256 * P <= q) /\ (ma = mb -> q = 256 * P - 1).
+Proof.
+  intros HC Hma Hmb P m. pose proof (mbits_ge C HC) as Hg. pose proof (mbits_le C HC) as Hl.
+  assert (Hbias : c_bias C = 128 + mbits C) by apply (ok_bias C HC).
+  assert (HP : 0 < P) by (apply pow2_pos; lia).
+  assert (H2P : 2 ^ mbits C = 2 * P) by (apply pow2_pred; lia). rewrite H2P in Hma, Hmb.
+  set (R0 := 256 * mb). set (W0 := 256 * ma).
+  assert (Hinv0 : dinv R0 W0 0 0 W0).
+  { unfold dinv, rr. change (2 ^ 0) with 1. rewrite Z.div_1_r. unfold R0, W0. repeat split; try lia. }
+  assert (Hr0 : rr R0 0 = R0) by (unfold rr; change (2 ^ 0) with 1; apply Z.div_1_r).
+  destruct (dloop_inv C (ea, 256 * ma, na) (eb, 256 * mb, nb) (negb (Bool.eqb na nb)) eb nb mb W0 ltac:(lia)
+              900 1000 0 0 (ea - (eb - c_bias C - 8) + 1) W0 ltac:(lia) ltac:(lia))
+    as (n & q & w & Hn & Hrn & Hprev & Hloop & Hinv); [| exact Hinv0 |].
+  { fold R0. rewrite Hr0. change (Z.of_nat 900) with 900.
+    assert (2 ^ (mbits C + 8) <= 2 ^ 900) by (apply pow2_le; lia).
+    assert (E8 : 2 ^ (mbits C + 8) = 512 * P).
+    { unfold P. replace (mbits C + 8) with (9 + (mbits C - 1)) by lia. rewrite pow2_split by lia. reflexivity. }
+    unfold R0. lia. }
+  fold R0 in Hrn, Hprev, Hloop, Hinv. rewrite Hr0 in Hloop.
+  (* the number of iterations is the bit length of R0: mbits + 8 *)
+  assert (En : n = m + 8).
+  { assert (E7 : 2 ^ (m + 7) = 256 * P).
+    { unfold P, m. replace (mbits C + 7) with (8 + (mbits C - 1)) by lia. rewrite pow2_split by lia. reflexivity. }
+    assert (Hn0 : n <> 0) by (intro; subst n; rewrite Hr0 in Hrn; unfold R0 in Hrn; lia).
+    destruct Hprev as [|Hprev]; [lia|].
+    unfold rr in Hrn, Hprev.
+    assert (Hpn : 0 < 2 ^ n) by (apply pow2_pos; lia). assert (Hpn1 : 0 < 2 ^ (n - 1)) by (apply pow2_pos; lia).
+    assert (Hlt : R0 < 2 ^ n).
+    { destruct (Z.lt_ge_cases R0 (2 ^ n)) as [|Hge]; [assumption|exfalso].
+      assert (1 <= R0 / 2 ^ n) by (apply Z.div_le_lower_bound; lia). lia. }
+    assert (Hge : 2 ^ (n - 1) <= R0).
+    { destruct (Z.le_gt_cases (2 ^ (n - 1)) R0) as [|Hlt']; [assumption|exfalso].
+      rewrite Z.div_small in Hprev by (unfold R0 in *; lia). lia. }
+    destruct (Z.lt_trichotomy n (m + 8)) as [Hlt'|[|Hgt']]; [exfalso|assumption|exfalso].
+    - assert (2 ^ n <= 2 ^ (m + 7)) by (apply pow2_le; lia). unfold R0 in *. lia.
+    - assert (2 ^ (m + 8) <= 2 ^ (n - 1)) by (apply pow2_le; unfold m; lia).
+      replace (m + 8) with (m + 7 + 1) in H by lia. rewrite pow2_S in H by (unfold m; lia). unfold R0 in *. lia. }
+  exists q. unfold mbf_div_den. cbv beta iota zeta. fold R0 W0. fold W0 in Hloop.
+  rewrite Hloop. cbn [bind]. cbv beta iota. unfold W0 at 1 2.
+  split.
+  { f_equal. f_equal. f_equal. subst n. unfold m. lia. }
+  destruct Hinv as (Hq0 & Hw & HU & _ & Hgt & Heq).
+  rewrite Hrn in Hw. subst n.
+  assert (E2n : 2 ^ (m + 8) = 512 * P).
+  { unfold P, m. replace (mbits C + 8) with (9 + (mbits C - 1)) by lia. rewrite pow2_split by lia. reflexivity. }
+  rewrite E2n in *. rewrite Z.max_r in * by (unfold m; lia).
+  replace (m + 8 - 8) with m in Hw by lia. replace (m + 8 - 9) with (m - 1) in HU by lia.
+  (* the two-sided bound on q * R0 *)
+  assert (Hlo : P * (256 * ma - m) <= q * mb) by (unfold R0, W0 in HU; nia).
+  assert (Hhi : q * mb <= P * (256 * ma + m - 2)) by (unfold R0, W0 in HU; nia).
+  split; [|split; [split; assumption|split]].
+  - unfold m in *. split; nia.
+  - intros Hlt. specialize (Hgt ltac:(unfold m; lia) ltac:(unfold R0, W0; lia)). lia.
+  - intros Hee. destruct (Heq ltac:(unfold m; lia) ltac:(unfold R0, W0; lia)) as [E _]. lia.
+Qed.
+
+(* ------------------------------------------------------------------------------------------------ *)
+(* idiv as a statement about values: error < 1 ulp, Overflow / zero only beyond the range.
+   (the hypothesis mbits <= 56 covers Single and Double: the accumulated truncation of the halved divisor is
+   at most mbits units of the 8 guard bits and has to stay below half a unit in the last place) *)
+
+Theorem idiv_post C a b : fmt_ok2 C -> mbits C <= 56 -> buf_ok C a -> buf_ok C b -> f_zero b = false ->
+  mag_post C true 1 1 (f_mag C a * 2 ^ c_bias C) (f_mag C b)
+           (negb (Bool.eqb (f_neg C a) (f_neg C b))) (mbf_idiv C a b).
+Proof.
+  intros [HC _] Hm56 Ha Hb Hzb.
+  pose proof (mbits_ge C HC) as Hg.
+  assert (Hbias : c_bias C = 128 + mbits C) by apply (ok_bias C HC).
+  pose proof (f_mag_pos C b HC Hb Hzb) as HDn.
+  assert (Hpm : 0 < 2 ^ mbits C) by (apply pow2_pos; lia).
+  assert (Hpb : 0 < 2 ^ c_bias C) by (apply pow2_pos; lia).
+  destruct (f_zero a) eqn:Hza.
+  { rewrite (idiv_zero C a b Hzb Hza). assert (E0 : f_mag C a = 0) by (unfold f_mag; rewrite Hza; reflexivity).
+    rewrite E0, Z.mul_0_l. split.
+    - split; [exact Ha|]. rewrite Hza. nia.
+    - intros Hbig. exfalso. assert (0 < 2 ^ 255) by (apply pow2_pos; lia). nia. }
+  pose proof (f_man_bound C a HC) as Hma. pose proof (f_man_bound C b HC) as Hmb.
+  pose proof (f_exp_bound C a HC Ha) as Hea. pose proof (f_exp_bound C b HC Hb) as Heb.
+  assert (Hea1 : 1 <= f_exp a) by (unfold f_zero in Hza; lia).
+  assert (Heb1 : 1 <= f_exp b) by (unfold f_zero in Hzb; lia).
+  destruct (div_den_spec C (f_exp a) (f_man C a) (f_neg C a) (f_exp b) (f_man C b) (f_neg C b) HC Hma Hmb)
+    as (q & Hdiv & Hqr & [Hlo Hhi] & Hgt & Heq). cbv zeta in *.
+  set (P := 2 ^ (mbits C - 1)) in *. assert (HP : 0 < P) by (apply pow2_pos; lia).
+  assert (H2P : 2 ^ mbits C = 2 * P) by (apply pow2_pred; lia). rewrite H2P in Hma, Hmb.
+  set (ma := f_man C a) in *. set (mb := f_man C b) in *.
+  set (ea := f_exp a) in *. set (eb := f_exp b) in *. set (m := mbits C) in *.
+  set (neg := negb (Bool.eqb (f_neg C a) (f_neg C b))) in *.
+  set (en := ea - eb + 129) in *.
+  assert (Hidiv : mbf_idiv C a b = mbf_normalise C a en q neg).
+  { unfold mbf_idiv. rewrite !is_zero_spec, Hzb, Hza. rewrite !denormalise_spec by assumption.
+    fold ma mb ea eb. rewrite Hdiv. cbn [bind]. cbv beta iota. apply bind_ret. }
+  rewrite Hidiv.
+  assert (HNm : f_mag C a = ma * 2 ^ ea) by (unfold f_mag; rewrite Hza; reflexivity).
+  assert (HDnv : f_mag C b = mb * 2 ^ eb) by (unfold f_mag; rewrite Hzb; reflexivity).
+  rewrite HNm, HDnv in *.
+  set (Nm := ma * 2 ^ ea * 2 ^ c_bias C). set (Dn := mb * 2 ^ eb) in *.
+  assert (Hpea : 0 < 2 ^ ea) by (apply pow2_pos; lia). assert (Hpeb : 0 < 2 ^ eb) by (apply pow2_pos; lia).
+  assert (HNm0 : 0 <= Nm) by (unfold Nm; apply Z.mul_nonneg_nonneg; nia).
+  assert (E2m : 2 ^ m = 2 * P) by exact H2P.
+  (* exponent <= 0 at entry *)
+  assert (Hsmall : en <= 0 -> Nm < 2 ^ m * Dn).
+  { intros Hen. unfold Nm, Dn. rewrite Hbias. fold m.
+    replace (128 + m) with (128 + (m - 1) + 1) by lia. rewrite pow2_S, pow2_split by lia. fold P. rewrite E2m.
+    assert (Hle : 2 * 2 ^ (ea + 128) <= 2 ^ eb).
+    { rewrite <- pow2_S by lia. apply pow2_le. unfold en in Hen. lia. }
+    rewrite pow2_split in Hle by lia.
+    set (x := 2 ^ ea) in *. set (y := 2 ^ eb) in *. set (z := 2 ^ 128) in *.
+    assert (0 < z) by (apply pow2_pos; lia).
+    assert (Hxz : 0 < x * z) by nia.
+    assert (H1 : ma * (x * z) < 2 * P * (x * z)) by (apply Z.mul_lt_mono_pos_r; lia).
+    assert (H2 : P * (2 * (x * z)) <= mb * y) by (clear - Hle Hmb HP Hxz; nia).
+    replace (ma * x * (2 * (z * P))) with (2 * P * (ma * (x * z))) by lia.
+    replace (2 * P * (mb * y)) with (2 * P * (mb * y)) by lia.
+    clear - H1 H2 HP. nia. }
+  destruct (Z.leb_spec en 0) as [Hz|Hnz].
+  { rewrite normalise_exp0 by lia. apply mag_post_zeros; try assumption.
+    split; [exact HNm0|]. fold m. apply Hsmall. exact Hz. }
+  (* scales *)
+  set (S := 2 ^ (OFF + 8)). assert (HS : 0 < S) by (apply pow2_pos; unfold OFF; lia).
+  set (Tq := 2 ^ (ea + 129 + OFF)). assert (HTq : 0 < Tq) by (apply pow2_pos; unfold OFF; lia).
+  assert (E7 : 2 ^ (m + 7) = 256 * P).
+  { unfold P, m. replace (mbits C + 7) with (8 + (mbits C - 1)) by lia. rewrite pow2_split by lia. reflexivity. }
+  assert (E8 : 2 ^ (m + 8) = 512 * P).
+  { unfold P, m. replace (mbits C + 8) with (9 + (mbits C - 1)) by lia. rewrite pow2_split by lia. reflexivity. }
+  assert (HNS : Nm * S = ma * (256 * P) * Tq).
+  { unfold Nm, S, Tq. rewrite <- E7, Hbias. fold m.
+    replace (ma * 2 ^ ea * 2 ^ (128 + m) * 2 ^ (OFF + 8)) with (ma * (2 ^ ea * 2 ^ (128 + m) * 2 ^ (OFF + 8))) by lia.
+    replace (ma * 2 ^ (m + 7) * 2 ^ (ea + 129 + OFF)) with (ma * (2 ^ (m + 7) * 2 ^ (ea + 129 + OFF))) by lia.
+    f_equal. rewrite <- !pow2_split by (unfold OFF; lia). f_equal. lia. }
+  assert (HQG : 2 ^ (en + OFF) * Dn = mb * Tq).
+  { unfold Dn, Tq. replace (2 ^ (en + OFF) * (mb * 2 ^ eb)) with (mb * (2 ^ (en + OFF) * 2 ^ eb)) by lia.
+    f_equal. rewrite <- pow2_split by (unfold OFF, en in *; lia). f_equal. unfold en. lia. }
+  assert (HVG : q * 2 ^ (en + OFF) * Dn = q * mb * Tq) by (rewrite <- Z.mul_assoc, HQG; lia).
+  (* NmS - VG = Tq * (256 P ma - q mb) within [- P (m-2) Tq, P m Tq] *)
+  assert (Hd1 : Nm * S - q * 2 ^ (en + OFF) * Dn <= P * m * Tq).
+  { rewrite HNS, HVG. replace (ma * (256 * P) * Tq - q * mb * Tq) with ((256 * P * ma - q * mb) * Tq) by lia.
+    apply Z.mul_le_mono_nonneg_r; [lia|]. lia. }
+  assert (Hd2 : q * 2 ^ (en + OFF) * Dn - Nm * S <= P * (m - 2) * Tq).
+  { rewrite HNS, HVG. replace (q * mb * Tq - ma * (256 * P) * Tq) with ((q * mb - 256 * P * ma) * Tq) by lia.
+    apply Z.mul_le_mono_nonneg_r; [lia|]. lia. }
+  assert (Hq0 : 0 < q < c_den_upper C) by (rewrite (ok_den_upper C HC); fold m; rewrite E8; lia).
+  pose proof (normalise_val C a en q neg OFF HC (proj1 Ha) Hq0 ltac:(lia) ltac:(unfold OFF; lia)) as Hnp.
+  set (r := mbf_normalise C a en q neg) in *.
+  (* shift count of _normalise is at most 1 *)
+  assert (Hk1 : forall k, 0 <= k -> q * 2 ^ k < 2 ^ (m + 8) -> 2 ^ k <= 2).
+  { intros k Hk Hlt. rewrite E8 in Hlt.
+    destruct (Z.le_gt_cases k 1) as [Hle|Hgt1].
+    - change 2 with (2 ^ 1) at 2. apply pow2_le. lia.
+    - exfalso. assert (2 ^ 2 <= 2 ^ k) by (apply pow2_le; lia). change (2 ^ 2) with 4 in *. nia. }
+  assert (HSD : S * Dn = 2 ^ (OFF + 8) * Dn) by reflexivity.
+  assert (Hscale : forall k, 0 <= k -> 0 <= en - k + OFF -> 2 ^ (en + OFF) = 2 ^ k * 2 ^ (en - k + OFF)).
+  { intros k Hk Hpos. rewrite <- pow2_split by lia. f_equal. lia. }
+  (* P * m * 2 < 128 * mb *)
+  assert (Hkey : forall t, 0 < t <= 2 -> P * m * t < 128 * mb).
+  { intros t Ht. assert (Hmt : m * t <= 112) by (clear - Ht Hm56 Hg; nia).
+    replace (P * m * t) with (P * (m * t)) by lia.
+    assert (P * (m * t) <= P * 112) by (apply Z.mul_le_mono_nonneg_l; lia). lia. }
+  assert (HA := norm_partA C true 1 1 Nm Dn neg OFF en q r S Dn HC ltac:(unfold OFF; lia) HS HDn HDn HSD
+                  ltac:(lia) ltac:(lia) Hnp).
+  assert (HBC := norm_partBC C Nm Dn neg OFF en q r S Dn HC ltac:(unfold OFF; lia) HS HDn HDn HSD ltac:(lia) Hnp).
+  fold m in HA, HBC.
+  assert (HA' : forall b0, r = Ok b0 -> buf_ok C b0 /\
+            (if f_zero b0 then Nm < 2 ^ m * Dn
+             else f_neg C b0 = neg /\ err_ok true (1 * Z.abs (f_mag C b0 * Dn - Nm)) (1 * 2 ^ f_exp b0 * Dn))).
+  { apply HA.
+    - intros k Hk Hr' _ Hpos. cbn [err_ok].
+      specialize (Hk1 k Hk (proj2 Hr')). specialize (Hscale k Hk Hpos).
+      set (u := 2 ^ (en - k + OFF)) in *. assert (Hu : 0 < u) by (apply pow2_pos; lia).
+      assert (H2k : 0 < 2 ^ k) by (apply pow2_pos; lia).
+      assert (HuG : 2 ^ k * (u * Dn) = mb * Tq) by (rewrite <- HQG, Hscale; lia).
+      assert (Habs : Z.abs (Nm * S - q * 2 ^ (en + OFF) * Dn) <= P * m * Tq).
+      { assert (P * (m - 2) * Tq <= P * m * Tq).
+        { apply Z.mul_le_mono_nonneg_r; [lia|]. apply Z.mul_le_mono_nonneg_l; lia. }
+        lia. }
+      (* |d| + 128 u G < 256 u G  <=  |d| * 2^k < 128 * 2^k u G = 128 mb Tq *)
+      assert (Hlt : P * m * Tq * 2 ^ k < 128 * (2 ^ k * (u * Dn))).
+      { rewrite HuG. specialize (Hkey (2 ^ k) ltac:(lia)).
+        replace (P * m * Tq * 2 ^ k) with (P * m * 2 ^ k * Tq) by lia.
+        replace (128 * (mb * Tq)) with (128 * mb * Tq) by lia.
+        apply Z.mul_lt_mono_pos_r; [exact HTq | exact Hkey]. }
+      assert (Hlt2 : P * m * Tq < 128 * (u * Dn)).
+      { apply (Z.mul_lt_mono_pos_r (2 ^ k)); [exact H2k|]. lia. }
+      lia.
+    - intros k Hk Hr' Hk0 Hek HV.
+      (* exact quotient below MIN: ma * 2^(en) < 2 * mb *)
+      assert (Hcase : en <= 0 \/ (en = 1 /\ k = 1)).
+      { specialize (Hk1 k Hk (proj2 Hr')).
+        destruct (Z.eq_dec k 0) as [->|Hk']; [left; lia|].
+        assert (k = 1).
+        { destruct (Z.le_gt_cases k 1); [lia|exfalso]. assert (2 ^ 2 <= 2 ^ k) by (apply pow2_le; lia).
+          change (2 ^ 2) with 4 in *. lia. }
+        lia. }
+      destruct Hcase as [Hle|[Hen1 Hk1']]; [lia|].
+      (* k = 1: q < 256 P - 1, hence ma < mb *)
+      assert (Hqs : q < 256 * P - 1).
+      { destruct (Z.lt_ge_cases q (256 * P - 1)) as [|Hge]; [assumption|exfalso].
+        assert (k = 0) by (apply Hk0; rewrite E7; lia). lia. }
+      assert (Hlt : ma < mb).
+      { destruct (Z.lt_trichotomy ma mb) as [|[Ee|Hgt']]; [assumption|exfalso|exfalso].
+        - specialize (Heq Ee). lia.
+        - specialize (Hgt Hgt'). lia. }
+      (* Nm S = ma 256 P Tq < 512 P 2^OFF Dn  with en = 1: Tq = 2^(eb + OFF + 1)... *)
+      rewrite HNS, E8.
+      assert (ETq : Tq = 2 * (2 ^ OFF * 2 ^ eb)).
+      { unfold Tq. replace (ea + 129 + OFF) with (OFF + eb + 1) by (unfold en in Hen1; lia).
+        rewrite pow2_S, pow2_split by (unfold OFF; lia). reflexivity. }
+      rewrite ETq. unfold Dn.
+      set (x := 2 ^ OFF * 2 ^ eb).
+      assert (0 < x) by (apply Z.mul_pos_pos; [apply pow2_pos; unfold OFF; lia | exact Hpeb]).
+      replace (512 * P * 2 ^ OFF * (mb * 2 ^ eb)) with (512 * P * mb * x) by (unfold x; lia).
+      replace (ma * (256 * P) * (2 * x)) with (512 * P * ma * x) by lia.
+      apply Z.mul_lt_mono_pos_r; [assumption|]. clear - Hlt HP. nia. }
+  assert (HBC' : (match r return Prop with
+                  | Host x => x = 5 /\ (2 ^ m - 1) * 2 ^ 255 * Dn < Nm
+                  | Ok _ => True
+                  | _ => False
+                  end) /\ (2 ^ m * 2 ^ 255 * Dn <= Nm -> r = Host 5)).
+  { apply HBC.
+    - intros k Hk Hr' _. specialize (Hk1 k Hk (proj2 Hr')).
+      assert (H2k : 0 < 2 ^ k) by (apply pow2_pos; lia).
+      replace (127 * 2 ^ (en + OFF) * Dn) with (127 * (2 ^ (en + OFF) * Dn)) by lia. rewrite HQG.
+      assert (P * (m - 2) * Tq * 2 ^ k < 127 * (mb * Tq)).
+      { replace (P * (m - 2) * Tq * 2 ^ k) with (P * (m - 2) * 2 ^ k * Tq) by lia.
+        replace (127 * (mb * Tq)) with (127 * mb * Tq) by lia.
+        apply Z.mul_lt_mono_pos_r; [exact HTq|].
+        assert (Hmt : (m - 2) * 2 ^ k <= 108) by (clear - Hk1 Hm56 Hg H2k; nia).
+        replace (P * (m - 2) * 2 ^ k) with (P * ((m - 2) * 2 ^ k)) by lia.
+        assert (P * ((m - 2) * 2 ^ k) <= P * 108) by (apply Z.mul_le_mono_nonneg_l; lia). lia. }
+      apply Z.le_lt_trans with (P * (m - 2) * Tq * 2 ^ k); [|assumption].
+      apply Z.mul_le_mono_nonneg_r; lia.
+    - intros k Hk Hr' _. specialize (Hk1 k Hk (proj2 Hr')).
+      assert (H2k : 0 < 2 ^ k) by (apply pow2_pos; lia).
+      replace (128 * 2 ^ (en + OFF) * Dn) with (128 * (2 ^ (en + OFF) * Dn)) by lia. rewrite HQG.
+      assert (P * m * Tq * 2 ^ k < 128 * (mb * Tq)).
+      { replace (P * m * Tq * 2 ^ k) with (P * m * 2 ^ k * Tq) by lia.
+        replace (128 * (mb * Tq)) with (128 * mb * Tq) by lia.
+        apply Z.mul_lt_mono_pos_r; [exact HTq|]. apply Hkey. lia. }
+      apply Z.le_lt_trans with (P * m * Tq * 2 ^ k); [|assumption].
+      apply Z.mul_le_mono_nonneg_r; lia. }
+  destruct HBC' as [HB HCv]. split; [|exact HCv].
+  destruct r as [b0|e0|x0|]; try contradiction.
+  - specialize (HA' b0 eq_refl). destruct HA' as [Hok Hrest]. split; [exact Hok|].
+    destruct (f_zero b0); [exact Hrest|]. rewrite !Z.mul_1_l in Hrest. rewrite !Z.mul_1_l. exact Hrest.
+  - exact HB.
+Qed.
